@@ -3,7 +3,6 @@ package main
 import (
 	"bytes"
 	"fmt"
-	"io"
 	"log/slog"
 	"net/http"
 	"net/url"
@@ -11,6 +10,7 @@ import (
 
 	"reservoir/proxy"
 	"reservoir/proxy/responder"
+	"verifharness/e2elib"
 	"verifharness/emit"
 )
 
@@ -62,7 +62,7 @@ func cloneHeader(h http.Header) http.Header {
 }
 
 func runC08() {
-	slog.SetDefault(slog.New(slog.NewTextHandler(io.Discard, nil)))
+	slog.SetDefault(slog.New(e2elib.DebugDiscard{})) // every level enabled, nothing written
 	r := emit.NewRand(*flagSeed)
 	meta := emit.NewMeta("unit/C08", *flagSeed, *flagTier)
 	w := &emit.Writer{Dir: *flagOut, Prefix: "unit", ShardSize: 700,
